@@ -214,12 +214,8 @@ the invariant, after any finite history (any hostmasks, any argument strings, fl
 anywhere) the owners are among the owners of the initial state, and the invariant still holds.
 
 Reload points that read the files *without* a preceding flush (`Cmd.reload`: SIGHUP, `config
-reload`) are modelled (the state carries the text of the files as last written), keep `Inv`
-(`reloadNoFlush_preserves_inv`) and are compared with the real bot step by step, but they are
-excluded from this theorem: that such a reload cannot bring a capability back needs the further
-invariant "every capability in the saved file is still held in memory" (every revoking command
-saves), which is checked by the oracle on the implementation and not yet proved:
-   theorem history_safe_all : … without `hnr` …          (not proved) -/
+reload`) are covered by `history_safe_all` below, which needs the additional invariants
+`IdsOk`/`FileOk` and the run condition `GoodRun`. -/
 theorem history_safe (cfg : Cfg) (hcfg : HashSafe cfg) (hist : List (Str × Cmd)) (st : St) (h : Inv st)
     (hp : ∀ e ∈ hist, C16.noBreak e.1) (hnr : ∀ e ∈ hist, e.2 ≠ .reload) :
     (∀ id ∈ owners (run cfg st hist), id ∈ owners st) ∧ Inv (run cfg st hist) := by
@@ -234,6 +230,224 @@ theorem history_safe (cfg : Cfg) (hcfg : HashSafe cfg) (hist : List (Str × Cmd)
       · exact no_new_owner_step cfg st pfx c hc (hnr (pfx, c) (by simp))
     obtain ⟨h1, h2⟩ := ih (step cfg st pfx c).1 hinv (fun e he => hp e (by simp [he]))
       (fun e he => hnr e (by simp [he]))
+    exact ⟨fun id hid => hown id (h1 id hid), h2⟩
+
+/-! ## reloads that read the files as they are (SIGHUP, `config reload`) -/
+
+theorem reloadChannelsFrom_keeps (cfg : Cfg) (st : St) (t : Str) :
+    (reloadChannelsFrom cfg st t).nextId = st.nextId ∧ (reloadChannelsFrom cfg st t).ufile = st.ufile := by
+  unfold reloadChannelsFrom; simp only []; split <;> exact ⟨rfl, rfl⟩
+
+theorem safeUser_hashedOnly : C16.SafeUser ({ hashed := true } : C16.User) :=
+  ⟨C16.noBreak_nil, C16.noBreak_nil, fun c hc => (by cases hc), fun c hc => (by cases hc),
+   fun c hc => (by cases hc), fun c hc => (by cases hc)⟩
+
+theorem fileOk_of_saved {st : St} (hs : Saved st) (hsafe : SafeUsers st) (hi : IdsOk st) : FileOk st := by
+  intro t ht
+  rw [hs] at ht
+  injection ht with ht
+  refine ⟨st.users, st.nextId, ht.symm, hsafe, ?_⟩
+  intro p hp x hx
+  exact ⟨p.2, dictGet_of_mem_nodup hi.1 hp, hx⟩
+
+theorem fileOk_of_grow {st st' : St} (hf : st'.ufile = st.ufile) (hg : UserGrow st st') (h : FileOk st) : FileOk st' := by
+  intro t ht
+  rw [hf] at ht
+  obtain ⟨fu, n, e, hsafe, hheld⟩ := h t ht
+  refine ⟨fu, n, e, hsafe, ?_⟩
+  intro p hp x hx
+  obtain ⟨u, hu, hxu⟩ := hheld p hp x hx
+  obtain ⟨u', hu', hsub⟩ := hg p.1 u hu
+  exact ⟨u', hu', hsub x hxu⟩
+
+/-- **The saved file never holds a capability that memory has dropped** — preserved by every
+command that is not a reload, provided a capability-changing command either acknowledged
+("The operation succeeded": then it has saved) or left the state alone. -/
+theorem step_preserves_fileOk (cfg : Cfg) (hcfg : HashSafe cfg) (st : St) (pfx : Str) (hpfx : C16.noBreak pfx)
+    (c : Cmd) (hc : c ≠ .flushReload) (hr : c ≠ .reload) (hinv : Inv st) (hids : IdsOk st) (hfile : FileOk st)
+    (hq : c.capChanging = true → (step cfg st pfx c).2 = true ∨ (step cfg st pfx c).1 = st) :
+    FileOk (step cfg st pfx c).1 ∧ IdsOk (step cfg st pfx c).1 := by
+  have hinv' := step_preserves_inv cfg hcfg st pfx hpfx c hinv
+  have key : ∀ r : St × Bool, r = body cfg st pfx c → step cfg st pfx c = r →
+      FileOk r.1 ∧ IdsOk r.1 := by
+    intro r hr' hstep
+    have hids' : IdsOk r.1 := by rw [hr']; exact body_ids cfg st pfx c hc hr hids
+    have hsafe' : SafeUsers r.1 := by rw [← hstep]; exact hinv'.users
+    refine ⟨?_, hids'⟩
+    have hshape := body_shape cfg st pfx c hc hr
+    rw [← hr'] at hshape
+    rcases hshape with (hsv | ⟨hf, hg⟩) | ⟨u, hu, hf⟩ | ⟨hcc, hfalse⟩
+    · exact fileOk_of_saved hsv hsafe' hids'
+    · exact fileOk_of_grow hf hg hfile
+    · -- register from a too-wild hostmask
+      intro t ht
+      rw [hf] at ht
+      injection ht with ht
+      refine ⟨_, _, ht.symm, ?_, ?_⟩
+      · intro p hp
+        rcases List.mem_append.mp hp with hp | hp
+        · exact hinv.users p hp
+        · simp only [List.mem_singleton] at hp; subst hp; exact safeUser_hashedOnly
+      · intro p hp x hx
+        rcases List.mem_append.mp hp with hp | hp
+        · refine ⟨p.2, ?_, hx⟩
+          unfold St.user
+          rw [hu]
+          exact dictGet_append_left (dictGet_of_mem_nodup hids.1 hp)
+        · simp only [List.mem_singleton] at hp; subst hp; simp at hx
+    · rcases hq hcc with h | h
+      · rw [hstep] at h; rw [h] at hfalse; cases hfalse
+      · rw [hstep] at h; rw [h]; exact hfile
+  unfold step
+  cases c with
+  | flushReload => exact absurd rfl hc
+  | reload => exact absurd rfl hr
+  | _ =>
+    simp only []
+    split
+    · exact ⟨hfile, hids⟩
+    · split
+      · rename_i hig hal
+        apply key _ rfl
+        unfold step
+        simp only [hig, hal, if_true, Bool.false_eq_true, if_false]
+      · exact ⟨hfile, hids⟩
+
+theorem reloadSt_users (cfg : Cfg) (st : St) : (reloadSt cfg st).users = (reloadU cfg st).users := by
+  unfold reloadSt reloadC
+  split
+  · rw [(reloadChannelsFrom_users cfg _ _).1]; unfold reloadI; split <;> rfl
+  · unfold reloadI; split <;> rfl
+
+/-- **A reload without flush never adds a capability**: whatever was last saved, in a state where
+the saved file holds no capability that memory has dropped. -/
+theorem reloadNoFlush_caps_sub (cfg : Cfg) (st : St) (h : Inv st) (hf : FileOk st) :
+    ∀ p ∈ (reloadSt cfg st).users, ∀ x ∈ p.2.caps, ∃ u, (p.1, u) ∈ st.users ∧ x ∈ u.caps := by
+  rw [reloadSt_users]
+  unfold reloadU
+  split
+  · rename_i t ht
+    obtain ⟨fu, n, e, hsafe, hheld⟩ := hf t ht
+    rw [reloadUsersFrom_users, e]
+    have := C16.load_caps_sub (envOf cfg) st.cu { users := fu, nextId := n } h.cuok hsafe
+    intro p hp x hx
+    obtain ⟨f, hfm, hxf⟩ := this p hp x hx
+    obtain ⟨u, hu, hxu⟩ := hheld (p.1, f) hfm x hxf
+    exact ⟨u, user_mem hu, hxu⟩
+  · intro p hp; cases hp
+
+/-- **No new owner at a reload without flush.** -/
+theorem no_new_owner_reloadNoFlush (cfg : Cfg) (st : St) (h : Inv st) (hf : FileOk st) :
+    ∀ id ∈ owners (reloadSt cfg st), id ∈ owners st := by
+  intro id hid
+  obtain ⟨u', hu', ho⟩ := mem_owners.mp hid
+  obtain ⟨u, hu, hx⟩ := reloadNoFlush_caps_sub cfg st h hf (id, u') hu' C03.ownerS ho
+  exact mem_owners.mpr ⟨u, hu, hx⟩
+
+/-- a users load that completes ends with a flush: file and memory agree again -/
+theorem reloadUsersFrom_ok (cfg : Cfg) (st : St) (t : Str) (hinv : Inv st)
+    (hok : (C16.loadUsers (envOf cfg) st.cu t).2 = none) :
+    FileOk (reloadUsersFrom cfg st t) ∧ IdsOk (reloadUsersFrom cfg st t) := by
+  have hsafe := C16.load_safe (envOf cfg) st.cu t hinv.cu hinv.cuok
+  have hids := C16.load_ids (envOf cfg) st.cu t
+  have hi : IdsOk (reloadUsersFrom cfg st t) := by
+    unfold reloadUsersFrom; simp only [hok, Option.isNone_none, if_true]; exact hids
+  refine ⟨fileOk_of_saved ?_ ?_ hi, hi⟩
+  · unfold reloadUsersFrom; simp only [hok, Option.isNone_none, if_true]; rfl
+  · unfold reloadUsersFrom; simp only [hok, Option.isNone_none, if_true]; exact hsafe.users
+
+theorem fileOk_congr {st st' : St} (e1 : st'.users = st.users) (e2 : st'.ufile = st.ufile) (h : FileOk st) : FileOk st' :=
+  fileOk_of_grow e2 (userGrow_of_users_eq e1) h
+
+/-- the loads of a step complete (no record makes the reader raise) -/
+def LoadsOk (cfg : Cfg) (st : St) : Cmd → Prop
+  | .flushReload => (C16.loadUsers (envOf cfg) st.cu (C16.dumpUsers { users := st.users, nextId := st.nextId })).2 = none
+  | .reload => ∀ t, st.ufile = some t → (C16.loadUsers (envOf cfg) st.cu t).2 = none
+  | _ => True
+
+theorem flushReload_fileOk (cfg : Cfg) (st : St) (hinv : Inv st) (hok : LoadsOk cfg st .flushReload) :
+    FileOk (flushReloadSt cfg st) ∧ IdsOk (flushReloadSt cfg st) := by
+  obtain ⟨h1, h2⟩ := reloadUsersFrom_ok cfg st _ hinv hok
+  unfold flushReloadSt
+  simp only []
+  obtain ⟨e1, _⟩ := reloadChannelsFrom_users cfg (reloadUsersFrom cfg st (C16.dumpUsers { users := st.users, nextId := st.nextId }))
+    (C16.dumpChannels (reloadUsersFrom cfg st (C16.dumpUsers { users := st.users, nextId := st.nextId })).channels)
+  obtain ⟨e3, e4⟩ := reloadChannelsFrom_keeps cfg (reloadUsersFrom cfg st (C16.dumpUsers { users := st.users, nextId := st.nextId }))
+    (C16.dumpChannels (reloadUsersFrom cfg st (C16.dumpUsers { users := st.users, nextId := st.nextId })).channels)
+  exact ⟨fileOk_congr e1 e4 h1, ids_of_eq h2 e1 e3⟩
+
+theorem reloadNoFlush_fileOk (cfg : Cfg) (st : St) (hinv : Inv st) (hids : IdsOk st) (hf : FileOk st)
+    (hok : LoadsOk cfg st .reload) : FileOk (reloadSt cfg st) ∧ IdsOk (reloadSt cfg st) := by
+  have hu : FileOk (reloadU cfg st) ∧ IdsOk (reloadU cfg st) := by
+    unfold reloadU
+    split
+    · rename_i t ht
+      exact reloadUsersFrom_ok cfg st t hinv (hok t ht)
+    · rename_i hnone
+      refine ⟨?_, ⟨by simp, fun p hp => (by cases hp)⟩⟩
+      intro t ht
+      simp only [] at ht
+      rw [hnone] at ht
+      cases ht
+  have hi : FileOk (reloadI (reloadU cfg st)) ∧ IdsOk (reloadI (reloadU cfg st)) := by
+    unfold reloadI
+    split
+    · exact ⟨fileOk_congr rfl rfl hu.1, ids_of_eq hu.2 rfl rfl⟩
+    · exact hu
+  unfold reloadSt reloadC
+  split
+  · obtain ⟨e1, _⟩ := reloadChannelsFrom_users cfg (reloadI (reloadU cfg st)) ‹_›
+    obtain ⟨e3, e4⟩ := reloadChannelsFrom_keeps cfg (reloadI (reloadU cfg st)) ‹_›
+    exact ⟨fileOk_congr e1 e4 hi.1, ids_of_eq hi.2 e1 e3⟩
+  · exact ⟨fileOk_congr rfl rfl hi.1, ids_of_eq hi.2 rfl rfl⟩
+
+/-- what a history must satisfy for the saved-file invariant to be maintained: every
+capability-changing command acknowledged or did nothing, every load completed -/
+def Quiet (cfg : Cfg) (st : St) (pfx : Str) (c : Cmd) : Prop :=
+  (c.capChanging = true → (step cfg st pfx c).2 = true ∨ (step cfg st pfx c).1 = st) ∧ LoadsOk cfg st c
+
+def GoodRun (cfg : Cfg) : St → List (Str × Cmd) → Prop
+  | _, [] => True
+  | st, (pfx, c) :: rest => Quiet cfg st pfx c ∧ GoodRun cfg (step cfg st pfx c).1 rest
+
+/-- the three invariants together -/
+structure Inv3 (st : St) : Prop where
+  inv : Inv st
+  ids : IdsOk st
+  file : FileOk st
+
+/-- one step of any kind — command, flush+reload, reload without flush: no new owner, and the
+invariants are kept -/
+theorem step_safe_all (cfg : Cfg) (hcfg : HashSafe cfg) (st : St) (pfx : Str) (hpfx : C16.noBreak pfx) (c : Cmd)
+    (h : Inv3 st) (hq : Quiet cfg st pfx c) :
+    (∀ id ∈ owners (step cfg st pfx c).1, id ∈ owners st) ∧ Inv3 (step cfg st pfx c).1 := by
+  have hinv' := step_preserves_inv cfg hcfg st pfx hpfx c h.inv
+  by_cases hc : c = .flushReload
+  · subst hc
+    obtain ⟨f, i⟩ := flushReload_fileOk cfg st h.inv hq.2
+    exact ⟨no_new_owner_reload cfg st h.inv, ⟨hinv', i, f⟩⟩
+  by_cases hr : c = .reload
+  · subst hr
+    obtain ⟨f, i⟩ := reloadNoFlush_fileOk cfg st h.inv h.ids h.file hq.2
+    exact ⟨no_new_owner_reloadNoFlush cfg st h.inv h.file, ⟨hinv', i, f⟩⟩
+  · obtain ⟨f, i⟩ := step_preserves_fileOk cfg hcfg st pfx hpfx c hc hr h.inv h.ids h.file hq.1
+    exact ⟨no_new_owner_step cfg st pfx c hc hr, ⟨hinv', i, f⟩⟩
+
+/-- **Histories with every kind of reload point.**  From a state satisfying the three
+invariants, along any finite history of commands, flush+reload points and reloads that read the
+files as they are (SIGHUP, `config reload`) — in which capability-changing commands acknowledged
+or did nothing and loads completed (`GoodRun`) — no account becomes an owner, and the invariants
+hold at the end. -/
+theorem history_safe_all (cfg : Cfg) (hcfg : HashSafe cfg) (hist : List (Str × Cmd)) (st : St) (h : Inv3 st)
+    (hp : ∀ e ∈ hist, C16.noBreak e.1) (hg : GoodRun cfg st hist) :
+    (∀ id ∈ owners (run cfg st hist), id ∈ owners st) ∧ Inv3 (run cfg st hist) := by
+  induction hist generalizing st with
+  | nil => exact ⟨fun id hid => hid, h⟩
+  | cons e rest ih =>
+    obtain ⟨pfx, c⟩ := e
+    obtain ⟨hq, hg'⟩ := hg
+    obtain ⟨hown, h'⟩ := step_safe_all cfg hcfg st pfx (hp (pfx, c) (by simp)) c h hq
+    obtain ⟨h1, h2⟩ := ih (step cfg st pfx c).1 h' (fun e he => hp e (by simp [he])) hg'
     exact ⟨fun id hid => hown id (h1 id hid), h2⟩
 
 /-! ## non-vacuity and the two repaired defects -/
@@ -283,5 +497,32 @@ example : (run cfg0 st0 [(s "adm!a@admin.host", .capAdd (s "eve") (s "OWNER")),
 written to users.conf and read back as a capability line) -/
 example : (run cfg0 st0 [(s "mal!m@mal.host", .register (s "x\n  capability owner") (s "pw")),
                          (s "x", .flushReload)]).users.map (fun p => p.1) = [1, 2, 3] := by decide
+
+/-- the state `st0` once saved: the three invariants hold -/
+theorem st0_inv3 : Inv3 (flushU st0) := by
+  have hi : IdsOk (flushU st0) := ⟨by decide, by decide⟩
+  exact ⟨⟨st0_inv.users, st0_inv.cu, st0_inv.cuok⟩, hi, fileOk_of_saved rfl st0_inv.users hi⟩
+
+/-- a revocation followed by SIGHUP: acknowledged, hence saved, hence it stays revoked
+(this is the history the seeded change C02-m4 breaks on the real code) -/
+example : (run cfg0 (flushU st0) [(s "adm!a@admin.host", .capAdd (s "eve") (s "foo")),
+                                  (s "adm!a@admin.host", .capRemove (s "eve") (s "foo")),
+                                  (s "x", .reload)]).users.map (fun p => (p.1, p.2.caps)) =
+    [(1, [s "owner"]), (2, [s "admin"]), (3, [])] := by decide
+
+/-- the hypothesis on capability-changing commands is needed *in the model*: when `setUser` refuses
+the account (here its hostmask is also somebody else's login) the capability is gone from memory
+but not from the file, and the next SIGHUP brings it back.  On the real code this state does not
+last: the first lookup of that hostmask deletes it from the account (C04), which the harness
+observes; no history of real commands reproducing the resurrection was found. -/
+example :
+    let st : St := flushU { st0 with
+      users := st0.users.map (fun p => if p.1 = 3 then (3, { p.2 with caps := [s "foo"] }) else p),
+      auth := [(2, [s "eve!e@evil.host"])] }
+    (step cfg0 st (s "adm!a@admin.host") (.capRemove (s "eve") (s "foo"))).2 = false ∧
+    ((run cfg0 st [(s "adm!a@admin.host", .capRemove (s "eve") (s "foo"))]).users.map (fun p => (p.1, p.2.caps)) =
+      [(1, [s "owner"]), (2, [s "admin"]), (3, [])]) ∧
+    ((run cfg0 st [(s "adm!a@admin.host", .capRemove (s "eve") (s "foo")), (s "x", .reload)]).users.map
+        (fun p => (p.1, p.2.caps)) = [(1, [s "owner"]), (2, [s "admin"]), (3, [s "foo"])]) := by decide
 
 end C02
